@@ -47,7 +47,7 @@ Definition bool_ig (b : bool) : ignore_value := if b then IgTrue else IgFalse.
    are "shown" flags.  [reset_keys] is the source fact "the key filters are first reset to defaults". *)
 Definition targets_mapping (s o a m i d : bool) : list (pystr * ignore_value) :=
   let cell_keys := when (negb d) [of_ascii "execution_count"%string] ++ when (negb i) [of_ascii "id"%string]
-                   ++ when (negb a) [of_ascii "attachments"%string] in
+                   ++ when (negb a) [of_ascii "attachments"%string] ++ when (negb o) [of_ascii "outputs"%string] in
   [ (of_ascii "/cells/*/source"%string, bool_ig (negb s));
     (of_ascii "/cells/*/outputs"%string, bool_ig (negb o));
     (of_ascii "/cells/*/attachments"%string, bool_ig (negb a));
